@@ -69,5 +69,10 @@ type ProcResult struct {
 	Events         int            `json:"events"`
 	Violation      *Violation     `json:"violation,omitempty"`
 	Samples        []any          `json:"samples,omitempty"`
+	ClockJumps     int            `json:"clock_jumps"`
+	TimersFired    int            `json:"timers_fired"`
+	SimNanos       int64          `json:"simulated_nanoseconds"`
+	// Stuck: a run ended with tasks waiting on channels nothing in the simulation serves (inconclusive).
+	Stuck string `json:"stuck,omitempty"`
 	Hot            [][]HotYield   `json:"hot,omitempty"`
 }
